@@ -19,6 +19,9 @@ import (
 	"github.com/preslavrachev/gomjml/parser"
 )
 
+// minASTCacheCleanupInterval is used when the configured cleanup interval is zero or negative.
+const minASTCacheCleanupInterval = time.Second
+
 // Type alias for convenience
 type MJMLNode = parser.MJMLNode
 
@@ -288,6 +291,12 @@ func startASTCacheCleanup() {
 		cacheConfigMutex.RLock()
 		interval := astCacheCleanupInterval
 		cacheConfigMutex.RUnlock()
+
+		// time.NewTicker panics on non-positive durations; a tiny TTL (e.g. 1ns) yields
+		// TTL/2 == 0 and zero or negative values may be configured directly.
+		if interval <= 0 {
+			interval = minASTCacheCleanupInterval
+		}
 
 		ticker := time.NewTicker(interval)
 		defer ticker.Stop()
